@@ -397,20 +397,23 @@ def judge(c, code, err):
     if not kind:
         return []
     text = err.decode("utf-8", "replace")
+    # thread ids, scratch paths and line numbers differ from run to run / edit to edit: digits are masked
+    # in what is stored (the panic location is kept as reported)
+    masked = re.sub(r"[0-9]+", "#", text)
     cmd = c["argv"][0] + ("-r" if "-r" in c["argv"] else "")
     if kind == "timeout" and "panicked at" in text:
         # a panic on a worker thread after which the process never exits
         m = re.search(r"panicked at ([^\n]*):\n(.*)", text, re.S)
-        return [("cli:%s:panic+hang:%s:%s" % (cmd, panic_file(m.group(1)), norm_msg(m.group(2), c["values"])), {"exit": code, "at": m.group(1), "stderr": text[-600:]})]
+        return [("cli:%s:panic+hang:%s:%s" % (cmd, panic_file(m.group(1)), norm_msg(m.group(2), c["values"])), {"exit": code, "at": m.group(1), "stderr": masked[-600:]})]
     if "overflowed its stack" in text:
-        return [("cli:%s:abort:stack-overflow:%s" % (cmd, c["route"]), {"exit": code, "stderr": text[-600:]})]
+        return [("cli:%s:abort:stack-overflow:%s" % (cmd, c["route"]), {"exit": code, "stderr": masked[-600:]})]
     if kind == "panic":
         m = re.search(r"panicked at ([^\n]*):\n(.*)", text, re.S)
         msg = m.group(2) if m else text
-        return [("cli:%s:panic:%s:%s" % (cmd, panic_file(m.group(1)) if m else "", norm_msg(msg, c["values"])), {"exit": code, "at": m.group(1) if m else None, "stderr": text[-600:]})]
+        return [("cli:%s:panic:%s:%s" % (cmd, panic_file(m.group(1)) if m else "", norm_msg(msg, c["values"])), {"exit": code, "at": m.group(1) if m else None, "stderr": masked[-600:]})]
     if kind == "timeout":
-        return [("cli:%s:hang:%s" % (cmd, c["route"]), {"exit": code, "stderr": text[-300:]})]
-    return [("cli:%s:%s:%s" % (cmd, kind.replace(" ", ""), c["route"]), {"exit": code, "stderr": text[-600:]})]
+        return [("cli:%s:hang:%s" % (cmd, c["route"]), {"exit": code, "stderr": masked[-300:]})]
+    return [("cli:%s:%s:%s" % (cmd, kind.replace(" ", ""), c["route"]), {"exit": code, "stderr": masked[-600:]})]
 
 
 def run_case(binary, root, c):
